@@ -4,6 +4,7 @@ import Driver.Duals
 import Driver.Curves
 import Driver.FX
 import Driver.Linalg
+import Driver.Splines
 open Drv
 
 structure St where
@@ -12,6 +13,7 @@ structure St where
   duals : DualState := {}
   curves : CurveState := {}
   fx : FxState := {}
+  splines : SplineState := {}
 
 def stepLine (st : St) (line : String) : St × String :=
   let toks := (line.trimAscii.toString.splitOn " ").filter (· ≠ "")
@@ -33,6 +35,9 @@ def stepLine (st : St) (line : String) : St × String :=
   | none =>
   match linalgStep st.duals toks with
   | some out => (st, out)
+  | none =>
+  match splineStep st.duals st.splines toks with
+  | some (sp, out) => ({ st with splines := sp }, out)
   | none => (st, "bad-op")
 
 partial def loop (h : IO.FS.Stream) (out : IO.FS.Stream) (st : St) : IO Unit := do
